@@ -98,6 +98,10 @@ def tasks(tier):
     ts.append(("tools.save", "run_save", {}))
     ts.append(("mesh write/read", "run_mesh_io", {}))
     ts.append(("mesh container", "run_container", {}))
+    # the default cell data "Logarithmic Strain" is written in strain-Voigt storage (math.tovoigt(strain=True)), for 3x3 tensors and for the
+    # 2x2 tensors of a plain two-dimensional field alike
+    ts.append(("Voigt storage of the written strains", "run_included", dict(modname="c17", fname="run_group", kwargs=dict(group="unary", tier=tier), oid="C20.O6", select_oid="C17.O2",
+                                                                          why="the cell data of every frame equal the documented per-cell quantities: the logarithmic strain in Voigt storage with doubled shear components, in 2d as in 3d")))
     return ts
 
 
@@ -489,3 +493,9 @@ def run_container(col):
     cp = it.getattr(mc, "points")
     col.add("C20.O5", "MeshContainer.append", "after append every mesh (old and new) refers to the container's new point array", all(it.getattr(m, "points") is cp for m in it.getattr(mc, "meshes")) and npmodel.to_obj(cp).shape[0] == 8)
     finish_info(col, it)
+
+
+def run_included(col, modname, fname, kwargs, oid, why, select_oid=None):
+    from ..common import include
+
+    include(col, modname, fname, kwargs, oid, why, select_oid=select_oid)
